@@ -50,8 +50,8 @@ def obligations(which):
             continue
         for i, s in enumerate(sites):
             obs.append(dict(name=f"escapes_real[{fn[:-5]}:{s}]", func="ob_escapes", args=(fn, i), budget_s=120,
-                            bounds="exhaustive concrete enumeration (not solver-decided), REAL msdparser serializer and lexer: each of 28 tricky values (every MSD metacharacter alone / "
-                                   "leading / inner / trailing / paired, line breaks, non-ASCII) at this site x 4 neighbour values x 1..2 charts: serializes, strict parse gives the same "
+                            bounds="exhaustive concrete enumeration (not solver-decided), REAL msdparser serializer and lexer: each of 35 tricky values (every MSD metacharacter alone / "
+                                   "leading / inner / trailing / paired, LF / CR / CRLF and the other Unicode line boundaries, non-ASCII) at this site x 4 neighbour values x 1..2 charts: serializes, strict parse gives the same "
                                    "simfile, second serialization identical, auto-detected, object unchanged by serializing"))
     return obs
 
